@@ -395,6 +395,92 @@ def check_parity_used(prog: Program, res: Result) -> None:
                "exporter (labels are chosen by descriptor equality)")
 
 
+def check_rdkit_order(prog: Program, res: Result, efi) -> None:
+    """R-RDKIT-ORDER: T-ROUNDTRIP reads the tuples the exporter permutes as
+    "the neighbours in RDKit's order".  That is only true of a tuple built
+    element by element from `<rd atom>.GetNeighbors()`."""
+    res.rule("R-RDKIT-ORDER", "the neighbour tuple a chiral tag / permutation "
+             "label is computed against is read off the RDKit atom "
+             "(`idx_map_num_dict[a.GetIdx()] for a in <atom>.GetNeighbors()`)"
+             ": RDKit's order is the bond insertion order, no order derived "
+             "from the graph (sorted identifiers, adjacency sets) agrees "
+             "with it in general")
+    NAMES = ("neighbors", "rd_nbr_order", "rd_nbrs")
+    local_defs = {d.name: d for d in ast.walk(efi.node)
+                  if isinstance(d, ast.FunctionDef) and d is not efi.node}
+
+    def strip(v):
+        while isinstance(v, ast.Call) and call_name(v) in ("tuple", "list") \
+                and len(v.args) == 1:
+            v = v.args[0]
+        return v
+
+    def from_rdkit(v, depth=0):
+        """True / False / None (not understood)"""
+        v = strip(v)
+        if isinstance(v, (ast.ListComp, ast.GeneratorExp)) and len(
+                v.generators) == 1 and not v.generators[0].ifs:
+            it = v.generators[0].iter
+            if isinstance(it, ast.Call) and isinstance(
+                    it.func, ast.Attribute) and \
+                    it.func.attr == "GetNeighbors" and isinstance(
+                    v.generators[0].target, ast.Name):
+                var = v.generators[0].target.id
+                if norm(v.elt) in (f"idx_map_num_dict[{var}.GetIdx()]",
+                                   f"idx_map_num_dict.get({var}.GetIdx())"):
+                    return True
+                return None
+        t = norm(v, 200)
+        if isinstance(v, ast.Call) and isinstance(v.func, ast.Name) and \
+                v.func.id in local_defs and depth < 3:
+            d = local_defs[v.func.id]
+            rets = [r for r in ast.walk(d) if isinstance(r, ast.Return)
+                    and r.value is not None]
+            if len(rets) == 1:
+                return from_rdkit(rets[0].value, depth + 1)
+            return None
+        if isinstance(v, ast.Name) and v.id in NAMES:
+            return True         # another of the checked tuples
+        if any(isinstance(c, ast.Call) and call_name(c) in ("sorted", "sort")
+               and any(k.arg == "key" for k in c.keywords)
+               for c in ast.walk(v)):
+            return None     # ordered by something: possibly the RDKit index
+        if "GetNeighbors" not in t and re.search(
+                r"\bsorted\(|\.bonded_to\(|\.neighbors\b|\.bonds\b", t):
+            return False
+        return None
+
+    n = 0
+    for a in ast.walk(efi.node):
+        tgt = val = None
+        if isinstance(a, ast.Assign) and len(a.targets) == 1:
+            tgt, val = a.targets[0], a.value
+        elif isinstance(a, ast.AnnAssign) and a.value is not None:
+            tgt, val = a.target, a.value
+        if not (isinstance(tgt, ast.Name) and tgt.id in NAMES):
+            continue
+        n += 1
+        inst = f"stereo_mol_graph_to_rdmol: {tgt.id} (line {a.lineno}) is " \
+               "RDKit's neighbour order"
+        verdict = from_rdkit(val)
+        if verdict is True:
+            res.ok("R-RDKIT-ORDER", inst, efi.loc(a))
+        elif verdict is False:
+            res.bad("R-RDKIT-ORDER", f"stereo_mol_graph_to_rdmol: {tgt.id} = "
+                    f"{norm(strip(val), 60)}", efi.loc(a),
+                    f"`{tgt.id} = {norm(val, 90)}` is an order derived from "
+                    "the graph, the chiral tag / permutation label computed "
+                    "against it is read by RDKit (and by the importer) "
+                    "against GetNeighbors() order: wrong arrangement "
+                    "whenever the two orders differ", instance=inst,
+                    context=["<decided>"])
+        else:
+            res.unrecognised("R-RDKIT-ORDER", inst, efi.loc(a),
+                             f"`{norm(val, 80)}` is not a comprehension over "
+                             "GetNeighbors()")
+    res.need("R-RDKIT-ORDER", n, 3, "neighbour order tuples in the exporter")
+
+
 def run(prog: Program, res: Result, tier: str) -> None:
     res.rule("T-ROUNDTRIP", "for every stored descriptor (all orderings of "
              "the ligands relative to RDKit's neighbour order, every parity) "
@@ -411,6 +497,7 @@ def run(prog: Program, res: Result, tier: str) -> None:
     imp = importer_tables(prog)
     exp = exporter_model(prog)
     efi = exp["_fi"]
+    check_rdkit_order(prog, res, efi)
     check_ez_roundtrip(prog, res, G)
     check_optional_label(prog, res)
     check_mapnum_domain(prog, res)
